@@ -18,8 +18,15 @@ def main():
     p = os.path.join(ROOT, "tools", "not_applicable.json")
     if os.path.exists(p):
         overrides = json.load(open(p))
+    hold = {}
+    hp = os.path.join(ROOT, "tools", "hold.json")
+    if os.path.exists(hp):
+        hold = json.load(open(hp))
     for pr in props:
         pid = pr["id"]
+        if pid in hold:
+            na.append({"property_id": pid, "reason": "not claimed in this commit: " + hold[pid]})
+            continue
         try:
             mod = importlib.import_module(f"sfv.props.{pid.lower()}")
         except ModuleNotFoundError:
